@@ -398,7 +398,7 @@ def _run_check(prop, tier, seed, nproc, only, budget, write, root, tree):
     ev = dict(property_id=prop, tier=tier, seed=int(seed), level=getattr(mod, "LEVEL", "model_checking"),
               coverage=coverage, assumptions=list(getattr(mod, "ASSUMPTIONS", [])), wall_s=round(wall, 2),
               violations=total["n_violations"])
-    if write and not only:
+    if write and not only and not os.environ.get("XRMC_REPO"):     # mutation runs never touch the evidence
         os.makedirs(EVIDENCE_DIR, exist_ok=True)
         path = os.path.join(EVIDENCE_DIR, "%s.json" % prop)
         tmp = path + ".tmp"
